@@ -571,3 +571,7 @@ REGISTRY["C02"]["theorems"] += T("Proofs.C02e", "BLDFM.C02", ["flProducts_close"
 REGISTRY["C02"]["partial_clauses"] = list(REGISTRY["C02"]["partial_clauses"]) + [
     "the sums sum(q*footprint), sum(q*G) as evaluated in floating point (every product and addition rounded, |fl x - x| <= eps |x|): a THEOREM - within "
     "((1+eps)^(n+1) - 1) * sum|q_i w_i| of the exact sum (flDot_error), i.e. 2 (n+1) eps sum|q w| (flDot_error_explicit); IEEE 754 conformance of numpy's arithmetic is trusted"]
+
+# C14 (parallel / serial drivers = the single runs): state that a solve leaves behind between the calls of one process decides whether the serial
+# drivers' results stay what the single runs returned (seeded change C14v sat in a solver helper and broke no table of C14)
+_add_bodies("C14", ["solver_steady_state", "solver_ivp"])
